@@ -88,7 +88,15 @@ func localRpcSetup(s *rt.Sim, tier string) func() {
 			}
 			return nil
 		}))
-		psCfg := peersharing.NewConfig(peersharing.WithShareRequestFunc(func(ctx peersharing.CallbackContext, amount int) ([]peersharing.PeerAddress, error) {
+		// knob (own stream): a peer-sharing timeout well below the default 60 s; the tagging
+		// server sometimes dwells longer than that. A call that runs into the timeout fails (and
+		// may take the protocol with it); no *successful* call may ever carry another request's tag
+		psShort := rt.Choose("cfg.x", 3) == 2
+		psOpts := []peersharing.PeerSharingOptionFunc{}
+		if psShort {
+			psOpts = append(psOpts, peersharing.WithTimeout(300*time.Millisecond))
+		}
+		psCfg := peersharing.NewConfig(append(psOpts, peersharing.WithShareRequestFunc(func(ctx peersharing.CallbackContext, amount int) ([]peersharing.PeerAddress, error) {
 			if chance("op", 1, 5) {
 				sleep(oneOf("op", 10*time.Millisecond, 500*time.Millisecond))
 			}
@@ -97,7 +105,7 @@ func localRpcSetup(s *rt.Sim, tier string) func() {
 				out = append(out, peersharing.PeerAddress{IP: net.IPv4(10, 0, byte(amount), byte(i)), Port: uint16(3000 + amount)})
 			}
 			return out, nil
-		}))
+		}))...)
 		// mempool of real transactions
 		var memTxs []localtxmonitor.TxAndEraId
 		var memIds [][]byte
@@ -316,7 +324,9 @@ func localRpcSetup(s *rt.Sim, tier string) func() {
 			relErr = cConn.LocalStateQuery().Client.Release()
 		}
 		sleep(time.Second)
-		if len(cw.errs)+len(sw.errs) > 0 || relErr != nil {
+		if proto == "ps" && psShort {
+			rt.Hit("rpc.ps-short-timeout")
+		} else if len(cw.errs)+len(sw.errs) > 0 || relErr != nil {
 			rt.Violate("C25/error-in-conforming-use/"+proto, "%s: client errors %v, server errors %v, release error %v", desc, cw.errs, sw.errs, relErr)
 			return
 		}
@@ -356,6 +366,9 @@ func localRpcSetup(s *rt.Sim, tier string) func() {
 			}
 		case "ps":
 			for _, c := range calls {
+				if c.err != nil && psShort {
+					continue
+				}
 				if c.err != nil {
 					rt.Violate("C25/error-in-conforming-use/ps", "%s: GetPeers(%d) failed: %v", desc, c.tag, c.err)
 					return
